@@ -2,7 +2,7 @@
 import ast
 import copy
 
-from .. import qsem, qspaces
+from .. import alpha, pkgchains, qsem, qspaces
 from ..core import Check, Space
 
 
@@ -53,7 +53,26 @@ class C02(Check):
                 (lambda sl=sl, lo=lo, hi=hi, pool=pool, forms=forms:
                  qspaces.enumerate_sources(sl, lo, hi, pool, forms)),
             ))
+        out.append(Space("pkgchains" + ("" if Q else "-rich"),
+                         {"generator": "pkgchains.chains (C14's packaging chains)", "stages": "2..3",
+                          "binder_names": "every admissible assignment from pool ['e','j']"},
+                         (lambda Q=Q: pkgchains.all_sources(Q)), runner="run_chain"))
+        out.append(Space("dupuse", {"generator": "pkgchains.dupuse: one bound sequence used twice (called "
+                                    "lambda positional/keyword, previous stage, packaged field)",
+                                    "binder_names": "every admissible assignment from pool ['e','j']"},
+                         pkgchains.dupuse, runner="run_chain"))
         return out
+
+    def run_chain(self, src):
+        res = {"n": 0, "nt": [], "oc": [], "tags": {}, "viol": []}
+        for s in alpha.namings_src(src, qspaces.POOL2):
+            r = self.run("pkgchains", s)
+            res["n"] += r["n"]
+            for k in ("nt", "oc", "viol"):
+                res[k] += r[k]
+            for k, v in r["tags"].items():
+                res["tags"][k] = res["tags"].get(k, 0) + v
+        return res
 
     def run(self, space_name, src):
         q = qsem.parse_expr(src)
